@@ -810,6 +810,9 @@ fn c09(b: &[u8]) -> String {
         let l = b.len();
         for n in [0usize, 1, 2, 5, l.saturating_sub(7), l.saturating_sub(8), l.saturating_sub(6)] {
             if let Some(Ok(Some(f))) = catch(|| tcp::extract_frame(b, n)) {
+                if n + 1 > 65535 {
+                    return Err(format!("extract_frame(n={n}) returned a frame although PDU length + 1 does not fit the MBAP length field"));
+                }
                 if f.pdu.len() != n {
                     return Err(format!("extract_frame(n={n}) returned a PDU of {} bytes", f.pdu.len()));
                 }
@@ -1352,7 +1355,7 @@ fn c16(bits: &[bool], tlen: usize, fill: &str) -> String {
                 return Err(format!("get({i}) gives {:?}, expected {}", catch(|| c.get(i)), bits[i]));
             }
         }
-        for i in [n, n + 1, n + 7, n + 8, 65535usize.max(n), 65536usize.max(n), 65536 + n, usize::MAX - 1, usize::MAX] {
+        for i in [n, n + 1, n + 7, n + 8, 65535usize.max(n), 65536usize.max(n), 65536 + n, 256 + n - 1, 65536 + n - 1, (1usize << 32) + n - 1, (1usize << 61) + n - 1, (1usize << 63) + n - 1, 1usize << 63, usize::MAX - 1, usize::MAX] {
             if catch(|| c.get(i)) != Some(None) {
                 return Err(format!("get({i}) with {n} coils gives {:?}, expected None", catch(|| c.get(i))));
             }
@@ -1388,7 +1391,7 @@ fn c17(ws: &[u16], tlen: usize, fill: &str) -> String {
                 return Err(format!("get({i}) gives {:?}, expected {:04X}", catch(|| d.get(i)), ws[i]));
             }
         }
-        for i in [n, n + 1, 255usize.max(n), 256 + n, 65536 + n, usize::MAX / 2, usize::MAX - 1, usize::MAX] {
+        for i in [n, n + 1, 255usize.max(n), 256 + n, 65536 + n, (1usize << 32) + n - 1, (1usize << 62) + n - 1, usize::MAX / 2, (1usize << 63) + n - 1, 1usize << 63, usize::MAX - 1, usize::MAX] {
             if catch(|| d.get(i)) != Some(None) {
                 return Err(format!("get({i}) with {n} words gives {:?}, expected None", catch(|| d.get(i))));
             }
